@@ -95,6 +95,7 @@ SCTClass ==
     idLen31                   |-> [SCTValid EXCEPT !.idLen = 31],
     idLen33                   |-> [SCTValid EXCEPT !.idLen = 33],
     logIDForeign              |-> [SCTValid EXCEPT !.id = "foreign"],
+    logIDOneBitOff            |-> [SCTValid EXCEPT !.id = "foreign"],
     logIDForeignSignedByOwner |-> [SCTValid EXCEPT !.id = "foreign", !.signer = "otherKey"],
     versionOther              |-> [SCTValid EXCEPT !.version = "other"],
     extBadBase64              |-> [SCTValid EXCEPT !.extForm = "notBase64"],
@@ -111,6 +112,7 @@ SCTClass ==
     sigOverOtherTimestamp     |-> [SCTValid EXCEPT !.over = "otherTimestamp"],
     sigOverOtherExtensions    |-> [SCTValid EXCEPT !.over = "otherExtensions", !.ext = "some"],
     sigOverDroppedExtensions  |-> [SCTValid EXCEPT !.over = "otherExtensions"],
+    sigOverNoExtensions       |-> [SCTValid EXCEPT !.over = "otherExtensions", !.ext = "some"],
     sigOverSubmittedNotFinal  |-> [SCTValid EXCEPT !.over = "otherChain"],
     sigOverSTHInput           |-> [SCTValid EXCEPT !.over = "otherSignatureType"] ]
 
@@ -125,6 +127,11 @@ EntryExpect ==
     x509WithExt      |-> [raw |-> "ok",    parsed |-> "ok"],
     leafTrailing     |-> [raw |-> "error", parsed |-> "error"],
     extraTrailing    |-> [raw |-> "error", parsed |-> "error"],
+    leafTrailingPrecert     |-> [raw |-> "error", parsed |-> "error"],
+    extraTrailingPrecert    |-> [raw |-> "error", parsed |-> "error"],
+    leafTruncatedPrecert    |-> [raw |-> "error", parsed |-> "error"],
+    extraTruncatedPrecert   |-> [raw |-> "error", parsed |-> "error"],
+    extraOfOtherTypePrecert |-> [raw |-> "error", parsed |-> "error"],
     wrongLeafType    |-> [raw |-> "error", parsed |-> "error"],
     unknownEntryType |-> [raw |-> "error", parsed |-> "error"],
     leafTruncated    |-> [raw |-> "error", parsed |-> "error"],
